@@ -53,12 +53,12 @@ theorem sync_then_get (tr : Nat) (slot : LTree) (tree : Nat) (n g : Nat) (hp : s
 example : (Tree.syncSteal ⟨1, true, 0⟩ 1) = some ⟨0, true, 0⟩ := by decide
 
 /-- **C11, end to end.** -/
-theorem single_slot_complete (c : Cfg) (ok : CfgOk c) (m : Mem) (inv : UpperInv0 c (fun _ => False) m) (r : Request) (ho : r.order = 0)
+theorem single_slot_complete (c : Cfg) (ok : CfgOk c) (m : Mem) (inv : UpperInv0 c (fun _ => 0) m) (r : Request) (ho : r.order = 0)
     (hcls : r.cls < 8) (lo : Nat) (hlo : r.loc = some lo) (rng : Nat × Nat) (hrng : c.slotRange r.cls = some rng)
     (hloc : lo < rng.2) (hnt : rng.2 < c.ntrees) (hv : C08.ArgsValid c 0 r)
     (hsingle : ∀ s (l' : LTree), m.slots[s]? = some l' → l'.present = true → s = rng.1 + lo)
     (f : Nat) (hfree : m.allocated c.geom f = false) :
-    Runs m (get c none r) (fun res m' => (∃ x, res = .ok x) ∧ UpperInv0 c (fun _ => False) m' ∧ GetOutcome c m 0 none res m') :=
+    Runs m (get c none r) (fun res m' => (∃ x, res = .ok x) ∧ UpperInv0 c (fun _ => 0) m' ∧ GetOutcome c m 0 none res m') :=
   single_slot_get_complete ok inv r ho hcls lo hlo rng hrng hloc hnt hv hsingle f hfree
 
 /-- with a single slot in the whole configuration the side condition on the slots is automatic -/
